@@ -265,11 +265,77 @@ fn class_of(first_line: &str, status: i32) -> String {
     "exit1:other".into()
 }
 
+/// one nesting level around `inner`; `i` makes the literals of the level distinct
+const TOWER_SHAPES: usize = 7;
+fn tower_level(shape: usize, i: usize, inner: &str) -> String {
+    match shape % TOWER_SHAPES {
+        0 => format!("(a{i} {inner})..."),
+        1 => format!("[a{i} {inner}]..."),
+        2 => format!("[a{i} {inner}...]"),
+        3 => format!("--a{i}=({inner})..."),
+        4 => format!("(a{i} {inner} || b{i})..."),
+        5 => format!("(a{i} | b{i} {inner})... \"d{i}\""),
+        _ => format!("((a{i} {inner})...)..."),
+    }
+}
+
+/// a small grammar whose brackets nest `depth` deep (repetition inside repetition inside ...): the work of
+/// every pass must stay polynomial in the depth ("terminates promptly"); `via_defs` writes one definition per level
+pub fn tower(shapes: &[usize], depth: usize, via_defs: bool) -> String {
+    if via_defs {
+        let mut t = String::from("cmd <L0>;\n");
+        for i in 0..depth {
+            let inner = if i + 1 < depth { format!("<L{}>", i + 1) } else { "x".to_string() };
+            t.push_str(&format!("<L{i}> ::= {};\n", tower_level(shapes[i % shapes.len()], i, &inner)));
+        }
+        t
+    } else {
+        let mut inner = "x".to_string();
+        for i in (0..depth).rev() {
+            inner = tower_level(shapes[i % shapes.len()], i, &inner);
+        }
+        format!("cmd {inner};\n")
+    }
+}
+
+fn tower_items() -> Vec<(Vec<usize>, usize, bool)> {
+    let mut v = vec![];
+    for shape in 0..TOWER_SHAPES {
+        for depth in [24usize, 40, 64] {
+            v.push((vec![shape], depth, false));
+        }
+        v.push((vec![shape], 40, true));
+    }
+    v.push(((0..TOWER_SHAPES).collect(), 48, false));
+    v.push(((0..TOWER_SHAPES).rev().collect(), 48, true));
+    v
+}
+
+fn case_tower(it: &(Vec<usize>, usize, bool)) -> Outcome {
+    let text = tower(&it.0, it.1, it.2);
+    let shell_i = (it.0[0] + it.1) % 4;
+    let shell = crate::obs::SHELLS[shell_i];
+    match judge(text.as_bytes(), shell, it.1 % 3) {
+        Err(Ok(f)) => Outcome::Fail(f),
+        Err(Err(why)) => Outcome::Broken(why),
+        Ok(v) => {
+            let mut c = Case::new(hex(text.as_bytes()));
+            c.nontrivial = v.parsed;
+            c.class("family:nesting-tower");
+            c.class(class_of(&v.first_line, v.status));
+            if it.1 == 24 && it.0[0] == 0 {
+                c.sample = Some(json!({"input": text, "shell": shell, "status": v.status}));
+            }
+            Outcome::Pass(c)
+        }
+    }
+}
+
 fn gen_input(bytes: &[u8]) -> (Vec<u8>, &'static str, usize, usize) {
     let cut = bytes.len() / 2;
     let (a, b) = bytes.split_at(cut);
     let mut s = Src::new(b);
-    let family = s.weighted(&[4, 6, 2, 2, 1]);
+    let family = s.weighted(&[4, 6, 2, 2, 1, 1]);
     let shell_i = s.below(4);
     let dest = s.below(3);
     let p = Profile::general();
@@ -306,7 +372,14 @@ fn gen_input(bytes: &[u8]) -> (Vec<u8>, &'static str, usize, usize) {
             let mut st = Style::random(&rest);
             (print_grammar(&g2, &mut st, None).text.into_bytes(), "planted-twice", shell_i, dest)
         }
-        _ => (a.to_vec(), "raw-bytes", shell_i, dest),
+        4 => (a.to_vec(), "raw-bytes", shell_i, dest),
+        _ => {
+            let depth = 4 + s.below(44);
+            let n = 1 + s.below(4);
+            let shapes: Vec<usize> = (0..n).map(|_| s.below(TOWER_SHAPES)).collect();
+            let via = s.chance(1, 3);
+            (tower(&shapes, depth, via).into_bytes(), "nesting-tower", shell_i, dest)
+        }
     }
 }
 
@@ -467,13 +540,16 @@ pub fn run(tier: Tier, seed: u64) -> i32 {
         tier,
         seed,
         "exploration",
-        "inputs <=4 KiB: clean grammars with 0-2 planted mistakes (cycles of every reachability pattern, duplicates, unknown shells, non-command specialisations, spaces/placeholders inside words, conflicting descriptions) printed with random multi-line layout; token-level mutations of printed clean grammars (delete/duplicate/swap/insert/replace/truncate/cut/backslash/move); token soups; raw bytes incl. invalid UTF-8. Part 'binary': the built binary x one of 4 shells x destination {stdout, fresh file, existing file}; oracle: ends within 10 s with status 0 (complete script at the destination, no error on stderr) or 1 (diagnostic on stderr, nothing on stdout, destination untouched); never a signal, panic or other status. Part 'library': the same inputs through parse->validate->regex->DFA->minimize->4 emitters in-process; oracle: no panic, accepted grammars give complete scripts (cyclic definitions are pre-screened out of this part). Non-trivial: input got past the parser or contains a statement terminator; distinct by input bytes.",
+        "inputs <=4 KiB: clean grammars with 0-2 planted mistakes (cycles of every reachability pattern, duplicates, unknown shells, non-command specialisations, spaces/placeholders inside words, conflicting descriptions) printed with random multi-line layout; token-level mutations of printed clean grammars (delete/duplicate/swap/insert/replace/truncate/cut/backslash/move); token soups; raw bytes incl. invalid UTF-8; nesting towers (7 bracket shapes incl. repetition in repetition, optional repetition, repetition inside a word, || under repetition, nested 4..64 deep, inline or one definition per level; a fixed set of 30 towers is run first, part 'nesting-towers'). Part 'binary': the built binary x one of 4 shells x destination {stdout, fresh file, existing file}; oracle: ends within 10 s with status 0 (complete script at the destination, no error on stderr) or 1 (diagnostic on stderr, nothing on stdout, destination untouched); never a signal, panic or other status. Part 'library': the same inputs through parse->validate->regex->DFA->minimize->4 emitters in-process; oracle: no panic, accepted grammars give complete scripts (cyclic definitions are pre-screened out of this part). Non-trivial: input got past the parser or contains a statement terminator; distinct by input bytes.",
     );
     run.assumptions.push("a timeout is reported as a violation only when reproduced three times; exponential nonterminal fan-out is excluded by construction (<=5 definitions, <=4 KiB)".into());
     run.assumptions.push("process creation on this box is a serial resource (~70 complgen runs/s), so the binary part is small and the in-process part carries the volume".into());
     run.shards = 3;
     run.shrink_iters = 150;
     run.enumerate("regress", load_regress("C06"), false, case_regress);
+    if !run.failed() {
+        run.enumerate("nesting-towers", tower_items(), true, case_tower);
+    }
     if !run.failed() {
         run.random("binary", tier.pick(1_500, 30_000), 700, case);
     }
